@@ -60,6 +60,7 @@ def gram_iter_width(ctx, rule):
         cfg = ctx.cfg(nb)
         arr_len = ctx.facts.ty("[char; 3]").get("len", 3)
         grow_ok = False
+        wrong = []
         for bi, t in nb.iter_terms():
             bt = U.bool_switch_targets(t)
             if bt is None:
@@ -89,6 +90,8 @@ def gram_iter_width(ctx, rule):
                     if not inc:
                         continue
                     grows_for = [w for w in range(1, arr_len + 3) if bool(truth(w)) == side]
+                    if len(grows_for) in (0, arr_len + 2):
+                        continue            # a test that is the same for every width (`0 <= w` of a range pattern) decides nothing
                     stop = (max(grows_for) + 1) if grows_for else None
                     key = "width-growth:%s" % nb.id
                     if grows_for == list(range(1, arr_len)):
@@ -96,9 +99,11 @@ def gram_iter_width(ctx, rule):
                         ctx.ok(rule, key, where(nb, bi), "width grows 1,2,…,%d and then the window slides" % arr_len,
                                nontrivial=True)
                     else:
-                        ctx.fail(rule, key, where(nb, bi),
-                                 "width stops growing at %s although grams have %d slots" % (stop, arr_len))
-        if not grow_ok:
+                        wrong.append((bi, stop))
+        if not grow_ok and wrong:
+            ctx.fail(rule, "width-growth:%s" % nb.id, where(nb, wrong[0][0]),
+                     "width stops growing at %s although grams have %d slots" % (wrong[0][1], arr_len))
+        elif not grow_ok:
             ctx.require(rule, "width-growth-branch", None, nb.where(),
                         "branch `width < %d => width += 1` not recognised" % arr_len)
 
@@ -172,6 +177,26 @@ def _prepare_chain(ctx, rule):
         ctx.require(rule, "candidate-chain", None, b.where(), "iterator chain producing the candidates")
         return None
     return b, idx_adt, chains[0]
+
+
+def candidate_returns(ctx, rule):
+    """the index's candidate method returns the counting chain or — for the query without words — an empty vector, nothing
+    else: no shortcut hands out postings uncounted and uncut"""
+    r = _prepare_chain(ctx, rule)
+    if r is None:
+        return
+    b, idx_adt, chain0 = r
+    alts = U.flatten_phi(ctx.sym(b).local(0))
+    chains = [chain0]
+    # every other way out returns the empty vector (the query without words): no shortcut hands out postings uncounted / uncut
+    others = [a for a in alts if a is not chain0[0]]
+    bad = [a for a in others if not (S.strip_refs(a)[0] == "call" and S.strip_refs(a)[1].endswith(("Vec::new", "Vec::with_capacity", "Default::default")))
+           and not (S.strip_refs(a)[0] == "call" and S.strip_refs(a)[1].endswith("from_elem") and False)]
+    if bad:
+        ctx.fail(rule, "candidate-returns:%s" % b.id, b.where(), "the candidate method also returns `%s`, bypassing the counting chain and its cut"
+                 % S.show(bad[0], b)[:100], {"witness": "a one-letter query lists every record sharing the gram, not the best 10 x size"})
+    else:
+        ctx.ok(rule, "candidate-returns:%s" % b.id, b.where(), "the candidate method returns the counting chain or an empty vector")
 
 
 def candidate_cap(ctx, rule, minimum=10, exact=None):
